@@ -46,14 +46,14 @@ CHECKS = {
              "text and JSON reports and random dedupe options, move targets that already hold entries, root names that are string "
              "prefixes of each other, the dedupe command run from another working directory and under a varying ambient environment (colour conventions, "
              "locale, a PWD that is not the working directory), names at the 255-byte limit, --isolate DIR given to the dedupe command itself (hard-link sets outside every "
-             "isolated root), empty files in reports made with --min 0. A model-free oracle compares full inventories: no "
+             "isolated root), empty files in reports made with --min 0, relative and absolute -S symlinks. A model-free oracle compares full inventories: no "
              "content digest disappears from regular files, at least max(1,n) replicas of every group are byte-, "
              "inode- and mtime-identical, nothing outside the reported groups changes, linked/cloned paths read back "
              "their bytes, moved bytes exist under DIR. `dedupe` is exercised natively (EOPNOTSUPP: nothing may change) "
              "and through the shim's FICLONE emulation.",
         note=COMMON_NOTE + "FICLONE success is emulated by the LD_PRELOAD shim (whole-file copy); the excluded combination "
-             "--match-links + --symbolic-links is never generated. Known finding D18 (--isolate with -S) is listed in "
-             "known_findings.json.",
+             "--match-links + --symbolic-links is never generated. Known findings D18 (--isolate with -S) and D39 (`link` after `group -S` makes a hard link to a "
+             "relative symbolic link) are listed in known_findings.json.",
         design="4/C02"),
     "C08": dict(
         category="exploration",
@@ -150,7 +150,8 @@ CHECKS = {
              "partition, no temp leftovers); the script must be identical modulo temp names under RAYON_NUM_THREADS 1/2/16 "
              "with hook jitter at the script generation. 15% of the reports come from a transform over files of different sizes, the "
              "ambient environment varies; 30% of the cases write the script again with -o onto a file holding an older, longer plan (must equal stdout); "
-             "explicit --isolate DIR and empty files (--min 0) as in C08.",
+             "explicit --isolate DIR and empty files (--min 0) as in C08; one multi-root scenario in six has its second root on a tmpfs mounted for the case, so that groups "
+             "split by device (scripts of such cases are compared as multisets of lines: the order within a group is not promised).",
         note=COMMON_NOTE + "bash 5 is the decoder/executor. `move` and `dedupe` scripts are compared with the real run but not executed "
              "(the property only requires execution equivalence for remove and link). FICLONE is emulated for `dedupe`.",
         design="4/C11"),
@@ -179,7 +180,7 @@ CHECKS = {
         text="Real `group | move DIR` pipelines with DIR outside/inside the scanned tree, on the same file system or on tmpfs "
              "(EXDEV, copy fallback), absolute or relative, pre-populated at mapped target paths with files, directories, "
              "symlinks (also dangling) and non-directories at parent positions, optionally with one injected fault, with a PWD "
-             "variable that does not name the working directory, DIR spelled with `..` after a symlink to a directory at another depth. Every "
+             "variable that does not name the working directory, DIR spelled with `..` after a symlink to a directory at another depth, DIR below a bind mount made for the case (copy without a rename attempt). Every "
              "source the model selects must end up at DIR/<absolute source path> with identical bytes or stay in place with a "
              "warning; every entry that existed under DIR (or behind its symlinks) is unchanged; in the trace, unlink(source) of "
              "a copied file follows the last write to and the close of its target.",
@@ -211,7 +212,8 @@ CHECKS = {
              "without the entry (subtree for a directory; entries after a failed readdir are don't-care; a failed extent query "
              "changes nothing, nor does a failed stat whose result was not needed: the report then equals the fault-free one) and a "
              "warning must name the entry unless it vanished (ENOENT). Conservation monitor (hook H5): in every fault run the open-files semaphore holds as many "
-             "permits when grouping ends as when it started.",
+             "permits when grouping ends as when it started. A 13th configuration uses a transform whose process is killed by a signal on about half of the files: "
+             "they must be left out with a warning already in the fault-free run.",
         note="Faults are at libc call granularity. A run that does not end is a violation only if the quiescence test shows the process "
              "and its live descendants asleep without progress.  Cases whose fault did not fire (the call sequence varies with the schedule for "
              "hard-linked files) are inconclusive and reported as such. Trusted base as for C03.",
@@ -254,7 +256,7 @@ CHECKS = {
              "recomputed from the body (documented definitions of redundant/missing), each group header count equals its path "
              "lines, groups are in non-increasing size, paths are absolute, --isolate keeps the paths of one root contiguous and "
              "roots in the given order (also with an input path that is a symlink to a file, below no root), text/JSON/CSV/fdupes "
-             "list the same groups under a varying ambient environment (CLICOLOR_FORCE etc.), -o equals stdout (half of the time written onto a file that holds an older, longer report), and the body does not change "
+             "list the same groups under a varying ambient environment (CLICOLOR_FORCE etc.), -o equals stdout (half of the time written onto a file that holds an older, longer report), --isolate roots given in shuffled order, and the body does not change "
              "with thread settings, root order (without --isolate) or file creation order.",
         note=COMMON_NOTE,
         design="4/C14"),
@@ -266,7 +268,8 @@ CHECKS = {
              "but before the report is written, or after `group` exited. Ten edit kinds (same/different-length rewrite, append, "
              "truncate, delete, delete+recreate, replace by directory / dangling symlink / symlink to a fresh file, touch) on "
              "1..all members of a group, then each of the five operations on the text or JSON report, in time zones east and west "
-             "of UTC, with the length comparison on or off (--transform report, --no-check-size), a fifth of them over two --isolate roots, a fifth of the reports made with -S (then also: a member replaced by a symlink to an old file of another length). The inventory taken just "
+             "of UTC, with the length comparison on or off (--transform report, --no-check-size), a fifth of them over two --isolate roots, a fifth of the reports made with -S (then also: a member replaced by a symlink to an old file of another length); a member replaced by an old file of another length (under two --isolate roots aimed at a "
+             "later member of the second root); -n / --rf-over on 30% of the dedupe command lines. The inventory taken just "
              "before the dedupe command is compared with the one after: no content held by a regular file may disappear and "
              "after link / link --soft / dedupe every regular file reads back the same bytes.",
         note=COMMON_NOTE + "Outside the guarantee and never generated: mtime-preserving replacement, and edits closer than one kernel "
